@@ -74,7 +74,7 @@ void harness_protocol(void) {
 
   for (int64_t step = 0; step < verif_param("STEPS"); step++) {
     uint64_t op = nondet_u64();
-    verif_assume(op < 6);
+    verif_assume(op < 7);
     op = verif_conc(op);
     if (op == 0) {
       // initialize
@@ -105,7 +105,8 @@ void harness_protocol(void) {
       verif_check(q == 0, "pure/get-quirk-value");
       continue;
     }
-    // a coroutine call: op 1 = transform_io, 2 = f1, 3 = f2, 5 = poke (no suspension point of its own)
+    // a coroutine call: op 1 = transform_io, 2 = f1, 3 = f2, 5 = poke (no suspension point of its own),
+    // 6 = undo (can_undo_byte / undo_byte on both streams)
     vbuf src, dst;
     vbuf_make(&src);
     int src_null = nondet_u8() & 1, dst_null = 0;
@@ -116,6 +117,12 @@ void harness_protocol(void) {
       dst_null = nondet_u8() & 1;
       vbuf_snapshot(&dst);
       st = wuffs_demo__parser__transform_io(&p, dst_null ? NULL : &dst.buf, src_null ? NULL : &src.buf, wuffs_base__empty_slice_u8());
+      vbuf_check_dst(&dst);
+    } else if (op == 6) {
+      vbuf_make(&dst);
+      dst_null = nondet_u8() & 1;
+      vbuf_snapshot(&dst);
+      st = wuffs_demo__parser__undo(&p, dst_null ? NULL : &dst.buf, src_null ? NULL : &src.buf);
       vbuf_check_dst(&dst);
     } else if (op == 2) {
       st = wuffs_demo__parser__f1(&p, src_null ? NULL : &src.buf);
@@ -147,7 +154,7 @@ void harness_protocol(void) {
         if (st.repr == wuffs_base__suspension__short_read) {
           verif_check(src.buf.meta.ri == src.buf.meta.wi, "protocol/short-read-justified");
         } else {
-          verif_check(st.repr == wuffs_base__suspension__short_write && op == 1 && (dst.buf.meta.wi == dst.buf.data.len || dst.buf.meta.closed), "protocol/short-write-justified");
+          verif_check(st.repr == wuffs_base__suspension__short_write && (op == 1 || op == 6) && (dst.buf.meta.wi == dst.buf.data.len || dst.buf.meta.closed), "protocol/short-write-justified");
         }
       } else {
         verif_check(st.repr == NULL, "protocol/ok-is-null-status");
